@@ -553,14 +553,24 @@ func plyResBytes(b []byte, err error) string {
 
 var plySkipAsciiWriteLine bool
 
-// user scalar "alpha" / "a" / "diffuse_alpha" (written as float) next to a colour 3-writer of type float with the matching names
+// user scalar "alpha" / "a" / "diffuse_alpha" written with the SAME scalar type as a colour 3-writer with the matching
+// names (by a custom scalar writer, or as float by WriteUnspecifiedProperties): claimed together as one 4-vector
 func plyAlphaCaptured(g plyGenMesh, w plyWCfg) bool {
 	want := map[string]string{"alpha": "red", "a": "r", "diffuse_alpha": "diffuse_red"}[g.specialName]
 	if want == "" || w.isDefault {
 		return false
 	}
+	var scalarTy ply.ScalarPropertyType
 	for _, p := range w.props {
-		if len(p.names) == 3 && p.names[0] == want && p.ty == ply.Float && w.unspecified {
+		if len(p.names) == 1 && p.attr == g.specialName && p.names[0] == g.specialName {
+			scalarTy = p.ty
+		}
+	}
+	if scalarTy == "" && w.unspecified {
+		scalarTy = ply.Float
+	}
+	for _, p := range w.props {
+		if len(p.names) == 3 && p.names[0] == want && scalarTy != "" && p.ty == scalarTy {
 			return true
 		}
 	}
